@@ -107,3 +107,23 @@ impl Shell {
 pub assume_specification<T: Copy> [Option::<&T>::copied] (o: Option<&T>) -> (r: Option<T>)
     ensures o is None ==> r is None, o is Some ==> r == Some(*o->Some_0);
 
+
+// ---- sourcing a file (shell/execution.rs source_file): the Script frame pushed for the sourced file is popped on every exit
+#[verifier::external_body] pub struct Program { _p: u8 }
+#[verifier::external_body] pub struct ParseError { _p: u8 }
+#[verifier::external_body] pub struct ScriptCallType { _p: u8 }
+#[verifier::external_body] pub struct ScriptArgs { _p: u8 }
+impl CallStack {
+    // CallStack::push_script / pop: contracts proved for the real type in unit U19
+    #[verifier::external_body]
+    pub fn push_script(&mut self, call_type: ScriptCallType, source_info: &SourceInfo, args: ScriptArgs) ensures final(self).depth() == old(self).depth() + 1 { unimplemented!() }
+    #[verifier::external_body]
+    pub fn pop(&mut self) requires old(self).depth() > 0 ensures final(self).depth() == old(self).depth() - 1 { unimplemented!() }
+}
+impl Shell {
+    // ASSUMED frame contract of the interpreter, as for run_string: the call stack is left as found (on Ok and on Err)
+    #[verifier::external_body]
+    pub fn run_parsed_result(&mut self, parse_result: Result<Program, ParseError>, source_info: &SourceInfo, params: &ExecutionParameters) -> (r: Result<ExecutionResult, Error>)
+        ensures final(self).call_stack.depth() == old(self).call_stack.depth()
+    { unimplemented!() }
+}
